@@ -554,7 +554,7 @@ EXPECTED_TAGS = {
                      'raw-sheet'],
     'history (validation)': ['process-vs-process', 'same-html-object', 'write-twice', 'snapshot', 'cache-dict',
                              'cache-disk', 'cache-none', 'shared-font-config', 'fresh-font-config', 'repeat-job',
-                             'permutation', 'sequence', 'real-ua', 'font-binding'],
+                             'permutation', 'sequence', 'real-ua', 'font-binding', 'shared-counter-style'],
 }
 
 
@@ -1716,6 +1716,12 @@ def make_special_jobs(rng, count):
         for html in c19_history.gen_binding_pair(rng, number):
             jobs.append({'html': html, 'css': None, 'options': {}, 'zoom': 1, 'features': ['font-binding'],
                          'raw_css': False, 'image_set': 0, 'fresh_env_only': True, 'pair': number})
+    # one family: rendered in sequences that share ONE CounterStyle object and one image cache (section_sequences)
+    for number in range(1 if count <= 10 else 2):
+        documents = c19_history.gen_counter_family(rng, number)
+        for html in (documents[:2] if count <= 10 else documents):
+            jobs.append({'html': html, 'css': None, 'options': {}, 'zoom': 1, 'features': ['counter-extends'],
+                         'raw_css': False, 'image_set': 0, 'shared_objects': number})
     return jobs
 
 
@@ -1910,7 +1916,7 @@ def run_alone(jobs, hashseed=7):
     return out
 
 
-def sequence_clause(jobs, order, alone=None):
+def sequence_clause(jobs, order, alone=None, share=False):
     """C19 'in the same process after any other renders': the jobs rendered one after the other in this process, each
     with an HTML object, CSS objects, font configuration and caches of its own, must each give what the job gives
     alone in a fresh process.  -> (text or None, [(position, job index, signature, reference signature)])"""
@@ -1918,16 +1924,23 @@ def sequence_clause(jobs, order, alone=None):
     alone = alone if alone is not None else run_alone(jobs)
     rows = []
     what = None
+    shared = {}
+    if share:
+        # objects the API lets a caller hand to several renders: one CounterStyle, one image cache
+        from weasyprint.css.counters import CounterStyle
+        shared = {'counter_style': CounterStyle(), 'cache': {}}
     for position, index in enumerate(order):
         try:
-            result = c19_history.run_job(jobs[index], env=c19_history.fresh_env())
+            result = c19_history.run_job(jobs[index], env=c19_history.fresh_env(), **shared)
         except Exception as exc:  # noqa: BLE001
             result = {'error': f'{type(exc).__name__}: {exc}'}
         got, want = history_signature(result), history_signature(alone[index])
         rows.append((position, index, got, want, result.get('mutated') or []))
         if what is None and got != want:
-            what = (f'render {position} of the sequence {list(order)} (job {index}: new HTML object, new font '
-                    f'configuration, new caches) gives {got}, the same job alone in a fresh process {want}: the '
+            objects = ('one CounterStyle object and one image cache shared by the renders of the sequence'
+                       if share else 'new font configuration, new caches')
+            what = (f'render {position} of the sequence {list(order)} (job {index}: new HTML object, {objects}) '
+                    f'gives {got}, the same job alone in a fresh process {want}: the '
                     'result depends on the renders made before it in the process')
         elif what is None and result.get('mutated'):
             what = f'render {position} of the sequence {list(order)} modified the caller\'s {result["mutated"]}'
@@ -1953,6 +1966,19 @@ def section_sequences(run, sec, jobs, nonce):
                     tags=['sequence', 'real-ua' if special[index].get('real_ua') else 'font-binding'])
             sec.add(sx.line('echo', 'unchanged', nonce[0]), 'mutated:' + ','.join(mutated) if mutated else 'unchanged',
                     meta=dict(meta, validation='sequence-mutation'), nontrivial=True, tags=['snapshot'])
+    # families rendered with caller-shared objects (one CounterStyle, one image cache for the whole sequence)
+    for group in sorted({job['shared_objects'] for job in jobs if 'shared_objects' in job}):
+        family = [job for job in jobs if job.get('shared_objects') == group]
+        alone = run_alone(family)
+        n = len(family)
+        orders = [list(range(n)) + list(range(n)), list(reversed(range(n))) + [0]]
+        for order in orders:
+            _, rows = sequence_clause(family, order, alone, share=True)
+            for position, index, got, want, mutated in rows:
+                nonce[0] += 1
+                meta = {'validation': 'sequence', 'jobs': family, 'order': order, 'position': position, 'share': True}
+                sec.add(sx.line('echo', want, nonce[0]), got, meta=meta, nontrivial=position > 0,
+                        tags=['sequence', 'shared-counter-style'])
 
 
 # ---------------------------------------------------------------------------------------------- module state
@@ -2477,7 +2503,7 @@ class C19(PropCheck):
             return (f'{REGRESSIONS[ident][2]} - the committed input of the repaired finding {ident} (fix: '
                     f'{REGRESSIONS[ident][1]}) fails again')
         if section.startswith('history') and meta.get('validation', '').startswith('sequence'):
-            what, _ = sequence_clause(meta['jobs'], meta['order'])
+            what, _ = sequence_clause(meta['jobs'], meta['order'], share=meta.get('share', False))
             return what or (f'sequence: render {meta["position"]} of {meta["order"]} gave {d["impl"]} where the job '
                             f'alone in a fresh process gives {d["model"]}')
         if section.startswith('history') or section.startswith('three-sinks'):
@@ -2717,7 +2743,7 @@ class C19(PropCheck):
             if inp['section'].startswith('regressions'):
                 return self.judge({'section': inp['section'], 'meta': meta})
             if inp['section'].startswith('history') and meta.get('validation', '').startswith('sequence'):
-                return sequence_clause(meta['jobs'], meta['order'])[0]
+                return sequence_clause(meta['jobs'], meta['order'], share=meta.get('share', False))[0]
             if inp['section'].startswith('history') or inp['section'].startswith('three-sinks'):
                 job = meta.get('job')
                 if job is None:
